@@ -18,7 +18,7 @@
 (*               to the client's buffer; before the grab it also reaches the *)
 (*               rest of the system (`leaked`).                              *)
 (***************************************************************************)
-EXTENDS Naturals, Sequences, FiniteSets, TLC, Json
+EXTENDS Naturals, Sequences, FiniteSets, SequencesExt, TLC, Json
 
 CONSTANTS Keys,        \* keys of the device
           MaxEvents,   \* bound on press/release events during start-up
@@ -39,7 +39,7 @@ Lbl(a, t, k) == [a |-> a, t |-> t, k |-> k]
 Log(l) == sched' = Append(sched, l)
 
 Init == /\ down \in SUBSET Keys /\ buf = <<>> /\ pc = "gkey" /\ snap = {} /\ grabbed = FALSE /\ nev = 0 /\ leaked = <<>>
-        /\ sched = <<>>
+        /\ sched = LET s == SetToSeq(down) IN [i \in 1..Len(s) |-> Lbl("held", "", s[i])]     \* the keys that are down when the device is opened
 
 (* ---- kernel ---- *)
 Press(k) == /\ k \notin down /\ nev < MaxEvents
@@ -89,5 +89,5 @@ NoKeystrokeReplayed == ~(grabbed /\ \E i, j \in 1..Len(buf): i < j /\ buf[i].t =
 
 (* ---- schedules out ---- *)
 Finished == pc = "done"
-EmitSchedule == (Emit /\ Finished) => PrintT(<<"SCHEDULE", ToJson([held |-> SetToSeq(snap \cup {}), sched |-> sched])>>)
+EmitSchedule == (Emit /\ Finished) => PrintT(<<"SCHEDULE", ToJson(sched)>>)
 =============================================================================
